@@ -64,3 +64,16 @@ package sql
 //@   ensures [order-by-flag-cleared] typeis(node, "*github.com/rqlite/sql.OrderingTerm") ==> !rw.orderedBy
 //@   ensures [order-by-flag-kept-otherwise] !typeis(node, "*github.com/rqlite/sql.OrderingTerm") ==> rw.orderedBy == old(rw.orderedBy)
 //@   ensures [node-kept] result0 == node && result1 == nil
+//
+// Process: every statement is looked at; a statement is parsed only if the pre-filter admits it;
+// the rewriter runs with exactly the switches the caller asked for; the statement text is replaced
+// only when the rewriter reports a modification, and then by the printed form of the rewritten AST.
+//@ func Process
+//@   ghost var modV bool = false
+//@   ghost var parsedOK bool = false
+//@   ghost update @rewriter.Do: modV = result1
+//@   assert @rewriter.Do: [rewrites-with-requested-switches] rewriter != nil && rewriter.RewriteRand == rwrand && rewriter.RewriteTime == rwtime && arg0 == parsed
+//@   assert @set:stmts[i].Sql: [text-replaced-only-if-rewritten] modV
+//@   loop 1 invariant [none] true
+//@ func NewRewriter
+//@   ensures [usable] result != nil && result.RewriteRand && result.RewriteTime && !result.orderedBy && !result.modified && !result.returning
